@@ -23,7 +23,9 @@ Inductive csk :=
 | KCount (v : Z)                         (* CountCommand subclass with this value *)
 | KDimen (v : Q)                         (* DimenCommand subclass *)
 | KGlue (v : Q) (st sh : option Q)       (* GlueCommand subclass: value, stretch, shrink *)
-| KGrp (opening : bool) (c : Z).         (* the bgroup / egroup element made from a `{` / `}` character token *)
+| KGrp (opening : bool) (c : Z)          (* the bgroup / egroup element made from a `{` / `}` character token *)
+| KMacro (name : list Z).                (* a user macro (NewCommand / Definition): TeX expands it while scanning a number;
+                                            its expansion is not modelled (every look at it gives the outcome Unmod) *)
 
 Inductive tok :=
 | Ch (cat c : Z)                         (* character token: category code, code point *)
@@ -59,6 +61,7 @@ Definition expand1 (lvl : Z) (t : tok) : option tok :=
       else if has_macro cat then None
       else Some t
   | Cs k true => Some t
+  | Cs (KMacro _) false => None
   | Cs k false => if is_param k && (0 <=? lvl) then None else Some (Cs k true)
   end.
 
@@ -119,6 +122,7 @@ Definition read_optional_signs (lvl : Z) (s : list tok) : hres Z :=
 Definition stops_unexpanded (t : tok) : bool :=
   match t with
   | Ch cat _ => has_macro cat
+  | Cs (KMacro _) false => false
   | Cs k false => negb (is_param k)
   | Cs _ true => false
   end.
